@@ -34,6 +34,7 @@ type twinEnv struct {
 	GoMaxProcs int    `json:"gomaxprocs"`
 	TZ         string `json:"tz"`
 	Extra      bool   `json:"extra_reads"` // read-only queries and discarded cache-context executions between operations
+	Restart    bool   `json:"restart"`     // full-application twin only: the node is restarted (new application object, stores copied) at marked blocks
 }
 
 type stepOut struct {
@@ -48,12 +49,12 @@ func twinEnvs(tier string) []twinEnv {
 	envs := []twinEnv{
 		{Name: "plain", FlagSet: false, GoMaxProcs: 1, TZ: "UTC"},
 		{Name: "flag+queries", FlagSet: true, FlagValue: "1", GoMaxProcs: 8, TZ: "Asia/Tokyo", Extra: true},
-		{Name: "flag-empty", FlagSet: true, FlagValue: "", GoMaxProcs: 2, TZ: "America/Caracas"},
-		{Name: "plain+queries", FlagSet: false, GoMaxProcs: 4, TZ: "UTC", Extra: true},
+		{Name: "flag-empty", FlagSet: true, FlagValue: "", GoMaxProcs: 2, TZ: "America/Caracas", Restart: true},
+		{Name: "plain+queries", FlagSet: false, GoMaxProcs: 4, TZ: "UTC", Extra: true, Restart: true},
 	}
 	if tier == "thorough" {
 		for i := 0; i < 12; i++ {
-			envs = append(envs, twinEnv{Name: fmt.Sprintf("rep%d", i), FlagSet: i%2 == 0, FlagValue: "x", GoMaxProcs: 1 + i%16, TZ: "UTC", Extra: i%3 == 0})
+			envs = append(envs, twinEnv{Name: fmt.Sprintf("rep%d", i), FlagSet: i%2 == 0, FlagValue: "x", GoMaxProcs: 1 + i%16, TZ: "UTC", Extra: i%3 == 0, Restart: i%4 == 1})
 		}
 	}
 	return envs
@@ -153,7 +154,11 @@ func firstDivergence(a, b []stepOut) int {
 
 func TestCorr(t *testing.T) {
 	if os.Getenv("C08_CHILD") != "" {
-		childMain(t)
+		if os.Getenv("C08_CHILD_MODE") == "app" {
+			appChildMain(t)
+		} else {
+			childMain(t)
+		}
 		return
 	}
 	run := emit.Start("C08", 300)
@@ -162,7 +167,12 @@ func TestCorr(t *testing.T) {
 	if err != nil {
 		t.Fatal(err)
 	}
-	defer os.RemoveAll(dir)
+	if keep := os.Getenv("C08_KEEP"); keep != "" { // debugging: keep scripts and child outputs
+		dir = keep
+		_ = os.MkdirAll(dir, 0o755)
+	} else {
+		defer os.RemoveAll(dir)
+	}
 	envs := twinEnvs(run.Tier)
 
 	// one twin group = one scripted history executed under every environment
@@ -220,6 +230,20 @@ func TestCorr(t *testing.T) {
 		script := genScript(run, perHist)
 		outs := check(fmt.Sprintf("h%d", h), script)
 		emitCases(run, script, outs, envs)
+	}
+	// full-application twin: block histories on the integration fixture (app_test.go)
+	for i, sc := range corpusAppScripts() {
+		outs := checkApp(t, run, dir, fmt.Sprintf("appcorpus%d", i), sc, envs)
+		emitAppCases(run, sc, outs, envs)
+	}
+	nApp, nBlocks := 2, 12
+	if run.Tier == "thorough" {
+		nApp, nBlocks = 8, 24
+	}
+	for h := 0; h < nApp; h++ {
+		sc := genAppScript(run, nBlocks)
+		outs := checkApp(t, run, dir, fmt.Sprintf("app%d", h), sc, envs)
+		emitAppCases(run, sc, outs, envs)
 	}
 	if err := run.Finish("Sys.Ambient Corr.C08", "C08.case", "C08.check"); err != nil {
 		t.Fatal(err)
